@@ -1011,15 +1011,42 @@ begin_object:
         switch (cursor.current().event_type())
         {
             case staj_events::begin_object:
-            {
-                auto result = stack.back()->try_emplace(key, json_object_arg);
-                stack.push_back(std::addressof(result.first->value()));
-                goto begin_object;
-            }
             case staj_events::begin_array:
             {
-                auto result = stack.back()->try_emplace(key, json_array_arg);
+                auto result = cursor.current().event_type() == staj_events::begin_object ?
+                    stack.back()->try_emplace(key, json_object_arg) : stack.back()->try_emplace(key, json_array_arg);
+                if (!result.second)
+                {
+                    // a repeated name: the first member is kept (as the parser does), skip the events of this value
+                    int depth = 0;
+                    for (;;)
+                    {
+                        const auto type = cursor.current().event_type();
+                        if (is_begin_container(type))
+                        {
+                            ++depth;
+                        }
+                        else if (is_end_container(type))
+                        {
+                            --depth;
+                        }
+                        if (depth == 0)
+                        {
+                            break;
+                        }
+                        cursor.next(ec);
+                        if (JSONCONS_UNLIKELY(ec))
+                        {
+                            return result_type(jsoncons::unexpect, ec, cursor.line(), cursor.column());
+                        }
+                    }
+                    break;
+                }
                 stack.push_back(std::addressof(result.first->value()));
+                if (result.first->value().type() == json_type::object)
+                {
+                    goto begin_object;
+                }
                 goto begin_array;
             }
             case staj_events::key:
